@@ -32,7 +32,8 @@ AN == Ident("an", FALSE, StrS(<<100, 121, 110>>, "dyn"))
 ArgForms == {<<"none", "", Undefined>>, <<"colon", "title", Undefined>>, <<"str2", "title", Undefined>>,
              <<"str2", "a_b", Undefined>>, <<"colon", "inputValue", Undefined>>,     \* (<arg>Modifiers: the whole name, also when it ends in "Value")          \* a string argument is a name as it stands (an underscore is not a modifier separator)
              <<"computed2", "", AN>>}
-ModForms == {<<"none", <<>>>>, <<"suffix", <<"trim">>>>, <<"array", <<"trim", "lazy">>>>, <<"array", <<>>>>}
+ModForms == {<<"none", <<>>>>, <<"suffix", <<"trim">>>>, <<"array", <<"trim", "lazy">>>>, <<"array", <<>>>>,
+             <<"array1", <<>>>>}          \* the one-element array `{[target]}`
 
 Models == {VModel(t, af[1], af[2], af[3], mf[1], mf[2]) : t \in Targets, af \in ArgForms, mf \in ModForms}
 
